@@ -10,9 +10,10 @@
      YStr x    tagged !!str (Go strings, map keys, libopenapi string nodes): the emitter quotes the value
                exactly when the v4 resolver would not read the plain form back as a string
                (yaml/v4 encode: rtag != strTag -> forceQuoting), or when plain style is impossible;
-     YPlain x  &yaml.Node{Kind: ScalarNode, Value: x} WITHOUT tag (validation.go:119-137,171-188,
+     YPlain x  &yaml.Node{Kind: ScalarNode, Value: x} WITHOUT tag (validation.go numeric const / in,
                types.go:226-232,287-295,405-410, generator.go:325-329,433-440): always written plain
-               when plain style is possible;
+               when plain style is possible.  (The string const / in nodes of validation.go:119-139
+               carry Tag "!!str" since the repair of string-value-untagged-scalar: they are YStr.);
      YGoStr x  a Go string encoded through reflection ([]string fields: tags, required, type lists):
                additionally quoted when it is a YAML 1.1 boolean word or a base-60 number, so every
                reader gets a string;
